@@ -354,3 +354,95 @@ func VerifHTMLPInContainer(n int) {
 	in := []byte(pre + "<" + x + "><p>a</p>" + tail + "</" + x + ">" + post + "b")
 	verifHTMLTreeCheck(in)
 }
+
+// Head or body. HTML tree construction, "before head" / "in head" / "after head": meta, link, script, style, title,
+// base, noscript and template start tags, comments and white space are placed in the head (or between head and
+// body) until a <body> start tag, any other start tag or non-space text opens the body. A script that is meant to
+// run in the body (document.body exists) must therefore keep a body-opening token in front of it.
+func rtInBody(doc []byte, marker string) (inBody, found bool) {
+	head := map[string]bool{"meta": true, "link": true, "script": true, "style": true, "title": true, "base": true, "noscript": true, "template": true, "html": true, "head": true}
+	raw := map[string]bool{"script": true, "style": true, "title": true, "noscript": true, "template": true}
+	body := false
+	i, n := 0, len(doc)
+	for i < n {
+		if rhHas(doc, i, marker) {
+			return true, true // the marker is text: it opens the body itself
+		}
+		if doc[i] != '<' {
+			if !rhWS(doc[i]) {
+				body = true
+			}
+			i++
+			continue
+		}
+		if rhHas(doc, i, "<!--") {
+			for i < n && !rhHas(doc, i, "-->") {
+				i++
+			}
+			i += 3
+			continue
+		}
+		if rhHas(doc, i, "<!") {
+			for i < n && doc[i] != '>' {
+				i++
+			}
+			i++
+			continue
+		}
+		end := i+1 < n && doc[i+1] == '/'
+		j := i + 1
+		if end {
+			j++
+		}
+		s := j
+		for j < n && doc[j] != '>' && !rhWS(doc[j]) {
+			j++
+		}
+		name := string(doc[s:j])
+		k := j
+		for k < n && doc[k] != '>' {
+			if rhHas(doc, k, marker) {
+				return body || !end && !head[name], true // the marker is an attribute value of this start tag
+			}
+			k++
+		}
+		i = k + 1
+		if end {
+			continue // </head>, </body>, </html> and stray end tags do not open the body
+		}
+		if name == "body" || !head[name] {
+			body = true
+		}
+		if raw[name] && !body || raw[name] {
+			// content of the element: look for the marker, then skip to the end tag
+			for i < n && !rhHas(doc, i, "</"+name) {
+				if rhHas(doc, i, marker) {
+					return body, true
+				}
+				i++
+			}
+		}
+	}
+	return body, false
+}
+
+// VerifHTMLBodyStart (C03): <html><head>H</head><body>FILL FIRST<p>x</body></html>: the first element of the body is
+// still parsed into the body.
+func VerifHTMLBodyStart(n int) {
+	headPart := []string{"<html><head><title>t</title></head>", "<head></head>", "", "<!doctype html><html><head><meta charset=utf-8></head>"}[vChoice("head", 4)]
+	fill := []string{"", " ", "<!--c-->", "\n<!--c-->\n"}[vChoice("fill", 4)]
+	first := []string{"<script>QQ</script>", "<style>QQ{}</style>", "<link rel=stylesheet href=QQ>", "<meta name=QQ content=b>", "<noscript>QQ</noscript>", "<template>QQ</template>", "<base href=QQ>", "<title>QQ</title>",
+		"<p>QQ</p>", "QQ", "<div id=QQ></div>", "<script src=QQ></script>"}[vChoice("first", 12)]
+	doc := []byte(headPart + "<body>" + fill + first + "<p>x</body></html>")
+	o := &Minifier{KeepComments: vBool("KeepComments"), KeepDocumentTags: vBool("KeepDocumentTags"), KeepEndTags: vBool("KeepEndTags"), KeepWhitespace: vBool("KeepWhitespace")}
+	want, ok0 := rtInBody(doc, "QQ")
+	vAssume(ok0)
+	out, err := verifHTMLRun(append(make([]byte, 0, len(doc)+1), doc...), o)
+	vReach("after-call")
+	vOutput("out", out)
+	vAssert(err == nil, "accepted")
+	got, ok1 := rtInBody(out, "QQ")
+	vAssert(ok1, "the element is still there: "+string(out))
+	vAssert(got == want, "the first element of the body is parsed into the body again (a script there runs with document.body set): "+string(doc)+" => "+string(out))
+	vReach("end")
+}
